@@ -93,18 +93,20 @@ type C19Rule struct {
 }
 
 type C19Case struct {
-	Engine     string    `json:"engine"`       // On | DetectionOnly
-	Audit      string    `json:"audit_engine"` // On | Off | RelevantOnly
-	CtlAudit   string    `json:"ctl_audit,omitempty"`
-	Pattern    string    `json:"relevant_status"`
-	Parts      string    `json:"parts"`
-	CtlParts   string    `json:"ctl_parts,omitempty"`
-	Format     string    `json:"format"`
-	Rules      []C19Rule `json:"rules"`
-	Hit        bool      `json:"hit_header"`
-	RespStatus int       `json:"resp_status"`
-	HdrVal     string    `json:"header_value"`
-	Body       string    `json:"body"`
+	Engine   string    `json:"engine"`       // On | DetectionOnly
+	Audit    string    `json:"audit_engine"` // On | Off | RelevantOnly
+	CtlAudit string    `json:"ctl_audit,omitempty"`
+	Pattern  string    `json:"relevant_status"`
+	Parts    string    `json:"parts"`
+	CtlParts string    `json:"ctl_parts,omitempty"`
+	Format   string    `json:"format"`
+	Rules    []C19Rule `json:"rules"`
+	Hit      bool      `json:"hit_header"`
+	// Warmup: the same request is served (and logged) once before on the same WAF
+	Warmup     bool   `json:"warmup,omitempty"`
+	RespStatus int    `json:"resp_status"`
+	HdrVal     string `json:"header_value"`
+	Body       string `json:"body"`
 }
 
 var c19Hostile = []string{"plain", "line1\nline2", "quote\"s and 'single'", "\xff\xfe invalid utf8", "--abcdefghij-Z--", "\n--abcdefghij-A--\n[fake] record", "{\"json\":\"inside\"}", "tab\there", "\r\n", "back\\slash", "é€", "\x00nul"}
@@ -157,6 +159,7 @@ func genC19(t *rapid.T) *C19Case {
 		}
 	}
 	c.Hit = rapid.Bool().Draw(t, "hit")
+	c.Warmup = rapid.IntRange(0, 2).Draw(t, "warmup") == 0
 	c.RespStatus = rapid.SampledFrom([]int{200, 404, 500, 302, 403}).Draw(t, "rstatus")
 	c.HdrVal = rapid.SampledFrom(c19Hostile).Draw(t, "hdrval")
 	c.Body = rapid.SampledFrom(c19Hostile).Draw(t, "body")
@@ -339,43 +342,61 @@ func checkC19(c *C19Case) Result {
 	captured = nil
 	capMu.Unlock()
 	var firedIDsGot []int
-	f := guard("transaction", func() {
-		tx := w.NewTransactionWithID(txID)
-		defer func() { _ = tx.Close() }()
-		tx.ProcessConnection("10.0.0.1", 1234, "10.0.0.2", 80)
-		tx.ProcessURI("/p?q=1", "POST", "HTTP/1.1")
-		tx.AddRequestHeader("Host", "h")
-		tx.AddRequestHeader("X-Hostile", c.HdrVal)
-		tx.AddRequestHeader("Content-Type", "application/x-www-form-urlencoded")
-		if c.Hit {
-			tx.AddRequestHeader("X-Hit", "1")
-		}
-		done := func() {
-			tx.ProcessLogging()
-			for _, mr := range tx.MatchedRules() {
-				firedIDsGot = append(firedIDsGot, mr.Rule().ID())
+	doTx := func(id string) *Failure {
+		return guard("transaction", func() {
+			tx := w.NewTransactionWithID(id)
+			defer func() { _ = tx.Close() }()
+			tx.ProcessConnection("10.0.0.1", 1234, "10.0.0.2", 80)
+			tx.ProcessURI("/p?q=1", "POST", "HTTP/1.1")
+			tx.AddRequestHeader("Host", "h")
+			tx.AddRequestHeader("X-Hostile", c.HdrVal)
+			tx.AddRequestHeader("Content-Type", "application/x-www-form-urlencoded")
+			if c.Hit {
+				tx.AddRequestHeader("X-Hit", "1")
 			}
-		}
-		if it := tx.ProcessRequestHeaders(); it != nil {
+			done := func() {
+				tx.ProcessLogging()
+				for _, mr := range tx.MatchedRules() {
+					firedIDsGot = append(firedIDsGot, mr.Rule().ID())
+				}
+			}
+			if it := tx.ProcessRequestHeaders(); it != nil {
+				done()
+				return
+			}
+			_, _, _ = tx.WriteRequestBody([]byte("b=" + c.Body))
+			if it, _ := tx.ProcessRequestBody(); it != nil {
+				done()
+				return
+			}
+			tx.AddResponseHeader("Content-Type", "text/plain")
+			tx.AddResponseHeader("X-Resp", c.HdrVal)
+			if it := tx.ProcessResponseHeaders(c.RespStatus, "HTTP/1.1"); it != nil {
+				done()
+				return
+			}
+			_, _, _ = tx.WriteResponseBody([]byte(c.Body))
+			_, _ = tx.ProcessResponseBody()
 			done()
-			return
+		})
+	}
+	if c.Warmup {
+		// the same request has just been served and logged on this WAF: what it changed for itself (ctl:auditLogParts,
+		// ctl:auditEngine) must not reach the transaction under test
+		if f := doTx(txID + "-before"); f != nil {
+			res.Fail = f
+			return res
 		}
-		_, _, _ = tx.WriteRequestBody([]byte("b=" + c.Body))
-		if it, _ := tx.ProcessRequestBody(); it != nil {
-			done()
-			return
-		}
-		tx.AddResponseHeader("Content-Type", "text/plain")
-		tx.AddResponseHeader("X-Resp", c.HdrVal)
-		if it := tx.ProcessResponseHeaders(c.RespStatus, "HTTP/1.1"); it != nil {
-			done()
-			return
-		}
-		_, _, _ = tx.WriteResponseBody([]byte(c.Body))
-		_, _ = tx.ProcessResponseBody()
-		done()
-	})
-	if f != nil {
+		capMu.Lock()
+		captured = nil
+		capMu.Unlock()
+		cbMu.Lock()
+		cbIDs = nil
+		cbMu.Unlock()
+		firedIDsGot = nil
+		res.Labels = append(res.Labels, "after-another-transaction")
+	}
+	if f := doTx(txID); f != nil {
 		res.Fail = f
 		return res
 	}
